@@ -498,6 +498,10 @@ class Generator(AbstractODSGenerator):
         transaction_sheet_name: str = self.get_in_out_sheet_name(asset)
         output_sheet_name: str = self.get_tax_sheet_name(asset)
 
+        # Transactions are identified by their row id, which is unique only within an asset sheet: start each asset with an empty map,
+        # otherwise a transaction hidden by the time filters may be linked to the row of another asset's transaction with the same row id
+        self.__in_out_sheet_transaction_2_row = {}
+
         transaction_sheet: Any = ezodf.Table(transaction_sheet_name)
         output_sheet: Any = ezodf.Table(output_sheet_name)
         summary_sheet: Any = output_file.sheets["Summary"]
